@@ -515,7 +515,7 @@ def check(c):
     lean_ok = c.lean_obligations()
     if not lean_ok:
         # the driver does not depend on the proofs: build it on its own so the search below can run
-        ok2, out2 = vlib.lake_build(("ssdriver",))
+        ok2, out2 = vlib.lake_build(("ssdriver-c19",))
         if not ok2:
             c.oblige("ssdriver builds", False, out2[-1500:])
     cfgs = load_cfgs()
